@@ -136,7 +136,7 @@ def op_model(op):
         return f'srv store {i} {int(byuid)} {gen.seqset_model(s)} {mode} {mnats([f for f in fl if f != 9])} {int(silent)}'
     if k == 'fetch':
         _, i, byuid, s, attrs = op
-        return f"srv fetch {i} {int(byuid)} {gen.seqset_model(s)} {int('FLAGS' in attrs)} {int('UID' in attrs)} {int('BODY[]' in attrs or 'RFC822' in attrs)}"
+        return f"srv fetch {i} {int(byuid)} {gen.seqset_model(s)} {int('FLAGS' in attrs)} {int('UID' in attrs)} {int(sets_seen(attrs))}"
     if k == 'expunge':
         return f"srv expunge {op[1]} {gen.seqset_model(op[2]) if op[2] else '-'}"
     if k == 'copy':
@@ -333,6 +333,12 @@ class Real:
             backends.rmtree(self.base)
 
 
+def sets_seen(attrs):
+    """RFC 3501 6.4.5: BODY[<section>] in any form without .PEEK, RFC822 and RFC822.TEXT set \\Seen; RFC822.HEADER, RFC822.SIZE, the .PEEK forms
+    and the structural items do not"""
+    return any((a.startswith('BODY[') or a.startswith('BINARY[') or a in ('RFC822', 'RFC822.TEXT')) for a in attrs)
+
+
 def sel_state(program_prefix, nsess):
     """which box each session has selected (box, examine) after the prefix, by the commands' own rules (harness-side shadow)"""
     st = [None] * nsess
@@ -494,7 +500,10 @@ def gen_program(r, nsess, length, profile, uid_base=100):
         elif k == 'fetch':
             byuid = r.random() < 0.4
             s = gen.seqset(r, hi, uid_base if byuid else 0)
-            attrs = r.choice([['FLAGS'], ['UID', 'FLAGS'], ['BODY.PEEK[]'], ['BODY[]'], ['FLAGS', 'BODY[]'], ['RFC822.SIZE'], ['UID'], ['RFC822']])
+            attrs = r.choice([['FLAGS'], ['UID', 'FLAGS'], ['BODY.PEEK[]'], ['BODY[]'], ['FLAGS', 'BODY[]'], ['RFC822.SIZE'], ['UID'], ['RFC822'],
+                              # every shape of body section sets \\Seen unless it is a .PEEK; RFC822.HEADER does not
+                              ['BODY[HEADER]'], ['BODY[TEXT]'], ['BODY[HEADER.FIELDS (SUBJECT)]'], ['BODY[HEADER.FIELDS.NOT (SUBJECT)]'], ['BODY[1]'], ['BODY[]<0.5>'], ['BODY[HEADER]<0.3>'],
+                              ['RFC822.TEXT'], ['RFC822.HEADER'], ['BODY.PEEK[HEADER]'], ['BODY.PEEK[TEXT]'], ['BODY.PEEK[1]'], ['FLAGS', 'BODY[HEADER]'], ['ENVELOPE'], ['BODYSTRUCTURE']])
             prog.append(['fetch', i, byuid, s, attrs])
         elif k == 'expunge':
             prog.append(['expunge', i, None])
